@@ -230,6 +230,8 @@ func (w *World) doChainEv(ev *ChainEv) {
 		c.Reorg(ev.N, false)
 	case "reorg-delay":
 		c.Reorg(ev.N, true)
+	case "reorg-hold":
+		c.ReorgHold(ev.N)
 	case "stall":
 		c.SetStalled(ev.N != 0)
 	}
